@@ -103,6 +103,15 @@ def _pair(d):
 
 
 def obs(cls: str, d) -> list[str]:
+    """the observation compared with the model's; an attribute that cannot be read (renamed, removed) makes the observation `unreadable:<what>` - a broken
+    correspondence for the comparison to report, not a crash of the check"""
+    try:
+        return _obs(cls, d)
+    except AttributeError as e:
+        return ["unreadable:" + str(e).replace(" ", "_")[:80]]
+
+
+def _obs(cls: str, d) -> list[str]:
     head = [tok_i(d.num_instances), tok_b(d.drift)]
     if cls == "DDM":
         return head + [tok_b(d.warning), tok_f(d.error_rate.mean), tok_i(d.error_rate.num_values)] + _pair(d)
@@ -246,3 +255,48 @@ def model_raises_at_end(cls: str, params: dict, xs: list) -> bool:
     lines = [r.lines[0]] + [f"u k {f2h(float(x))}" for x in xs]
     res = run_driver(lines)
     return len(res) == len(lines) and res[-1].startswith("err:") and not any(o.startswith("err:") for o in res[:-1])
+
+
+def canon_public(v, depth=0):
+    """canonical form of a value read from a detector: numbers by value (a Python 0 and a NumPy 0.0 read the same), containers by content"""
+    from collections import deque
+    if isinstance(v, np.ndarray):
+        try:
+            return ("arr", v.shape, tuple(repr(float(x)) for x in v.ravel()))
+        except Exception:  # noqa: BLE001
+            return ("arr", v.shape, repr(v.tolist()))
+    if isinstance(v, (list, tuple, deque)):
+        return tuple(canon_public(x, depth + 1) for x in v)
+    if isinstance(v, (bool, np.bool_)):
+        return ("b", bool(v))
+    if isinstance(v, (int, float, np.number)):
+        return ("n", repr(float(v)))
+    if isinstance(v, (str, type(None))):
+        return v
+    if isinstance(v, dict):
+        return tuple(sorted((str(k), canon_public(x, depth + 1)) for k, x in v.items()))
+    if callable(v):
+        return "callable"
+    if isinstance(v, (np.random.Generator, np.random.RandomState)):
+        return ("rng", type(v).__name__)
+    if hasattr(v, "__dict__") and depth < 10:
+        return ("obj", type(v).__name__, canon_public({k: x for k, x in vars(v).items() if k not in ("_callbacks", "detector")}, depth + 1))
+    return ("opaque", type(v).__name__)
+
+
+def public_reads(det) -> dict:
+    """everything a user can read from the detector without touching a private name: every public property of its class (whatever it is called - no list to
+    forget a variable in), plus `drift`"""
+    out = {}
+    for name in dir(type(det)):
+        if name.startswith("_") or name in ("config", "callbacks"):
+            continue
+        if isinstance(getattr(type(det), name, None), property):
+            try:
+                v = getattr(det, name)
+            except Exception as e:  # noqa: BLE001
+                v = "raises:" + type(e).__name__
+            out[name] = canon_public(v)
+    if hasattr(det, "drift"):
+        out["drift"] = canon_public(det.drift)
+    return out
